@@ -11,4 +11,7 @@ EXPLANATION = (
     "dateutil) is outside the proved subset and decided by the bounded stand-in.")
 ASSUMED = ["to_dict / _from_dict_init are not under contract: bounded stand-in only"]
 from pyvc.check import standin_bounded
-BOUNDED = [standin_bounded("C04")]
+from pyvc.check import external_bounded
+BOUNDED = [standin_bounded("C04"),
+           external_bounded("deep-schema:C04", "standin.deep", ["C04", "--n", "150"], ["C04", "--n", "800"],
+                            "nested schema (containers of oneof-carrying / field-less messages, two-level lazy parents, float maps, Duration JSON strings); observation-based oracle")]
